@@ -256,6 +256,24 @@ CLAIMS = [
         'design_ref': 'DESIGN.md section 4 C18',
     },
     {
+        'property_id': 'C03',
+        'level': 'other',
+        'technique': 'contract-based deductive verification by composition: the real premade / RTL / ParallelCombination code is '
+                     'executed symbolically with every layer call() replaced by an abstract relational contract (assert-pre / havoc / '
+                     'assume-post); weights range over the image of the constraint contracts proved in C01/C04/C06/C07; VCs to z3/cvc5',
+        'text': 'For ALL weights reachable through the attached constraints and ALL inputs, per enumerated model specification '
+                '(calibrated linear / lattice / ensembles explicit and RTL / Kronecker-factored / output calibration / hand-assembled '
+                'stacks): layer invariants of the layer hyperparameters, input-range preconditions of non-clipping lattices, end-to-end '
+                'monotonicity per constrained feature, categorical pair order, output bounds incl. missing values. Abstract contracts of '
+                'PWLCalibration / CategoricalCalibration / Linear are verified against the real call(); those of Lattice / KFL are cited '
+                'from C02 / C07. Histories are reduced to weight states by the TRUSTED Keras protocol (constraint re-applied after each '
+                'update). Two known findings (F-C03a zero-weight averaging layer leaves bounds that exclude 0; F-C03b consequence of '
+                'F-C04a). Refutations are replayed by a bounded native search (hostile assignments + real constraints).',
+        'note': 'Not decided: Keras optimizer protocol, Crystals / random ensemble training, AggregateFunction, learned keypoints, '
+                'model specifications outside the enumerated ones. Bounded: <=4 features, sizes 2-3, 3 keypoints, 3 buckets.',
+        'design_ref': 'DESIGN.md section 4 C03',
+    },
+    {
         'property_id': 'C11',
         'level': 'other',
         'technique': 'contract-based verification: key contract between __init__ and get_config of every class decided on the '
@@ -275,5 +293,5 @@ CLAIMS = [
 
 _PENDING = 'check not built yet in this session (planned, see DESIGN.md section 4); not claimed until its check exists'
 NOT_APPLICABLE = [
-    {'property_id': 'C%02d' % i, 'reason': _PENDING} for i in range(2, 21) if i not in (2, 4, 5, 6, 7, 8, 9, 10, 11, 12, 13, 14, 15, 16, 17, 18, 19, 20)
+    {'property_id': 'C%02d' % i, 'reason': _PENDING} for i in range(2, 21) if i not in (2, 3, 4, 5, 6, 7, 8, 9, 10, 11, 12, 13, 14, 15, 16, 17, 18, 19, 20)
 ]
